@@ -185,6 +185,12 @@ def r_literal_guard(F, R):
                 for (tgt, fs) in edge_facts(ctx, s_):
                     if any(_says_some(f, sel) for f in fs):
                         e2.add((s_, tgt))
+        # `self.check_literal(bytes)?; store`: the store sits behind the Continue arm of a `?`; a path
+        # through the block that builds the Err being propagated never gets there
+        from expr import try_sites as _try_sites
+        for (_cb, cont_, _brk, errs_) in _try_sites(ctx):
+            if errs_ and (cont_ == bi or b.dominates(cont_, bi)):
+                g2 |= errs_
         reach = reachable_avoiding(b, 0, g2, e2)
         ok = bi not in reach if bi not in merged else not (merged[bi] & reach)
         if not ok:
@@ -666,7 +672,10 @@ def r_stats(F, R, cat=None):
             if recv[0] == "place" and recv[2] == ("arg", 1) and recv[3][:1] == ("f:stats",) and \
                     any(nd == param for nd in walk(val)):
                 ins.add(bi)
-    ok1 = bool(ins) and not b.can_return_avoiding(ins)
+    # a `?` that hands an error back refuses the input: that exit is not an accepted input
+    from expr import try_sites as _try_sites
+    refusals = {brk for (_c, _k, brk, _e) in _try_sites(ctx)}
+    ok1 = bool(ins) and not b.can_return_avoiding(set(ins) | refusals)
     R.check("R-STATS", b.label(), ok1, construct="every accepted input enters the heavy-hitter summary",
             where=b.where(), detail="summary insert sites %s" % sorted(ins))
     # bitmap: stores into stats.1[..] ; empty inputs have no first byte
@@ -683,7 +692,7 @@ def r_stats(F, R, cat=None):
             r == ("arg", 1) and p[:2] == ("f:stats", "f:1") for (c, (r, p)) in e.targets or ()) for e in effs):
         R.undecided_site("R-STATS", b.label(), "the first-byte bitmap is written inside a closure: that it runs for every non-empty input is not decided")
         return
-    ok2 = bool(bm) and not b.can_return_avoiding(bm | empties)
+    ok2 = bool(bm) and not b.can_return_avoiding(bm | empties | refusals)
     R.check("R-STATS", b.label(), ok2, construct="every non-empty accepted input records its first byte",
             where=b.where(), detail="bitmap stores at blocks %s; empty-input blocks %s" % (sorted(bm), sorted(empties)))
 
